@@ -223,7 +223,7 @@ func VerifC14Handle() {
 	K := verifParam("K")
 	// model of what the handle reported as done: offset, size and the bytes it claims to have written
 	// (after a mutation that reported failure the handle's own view is unspecified: it may or may not include it)
-	off, size, unknown := int64(0), int64(len(data)), false
+	off, size, unknown, grown := int64(0), int64(len(data)), false, false
 	fresh := func(when string) []byte {
 		// a fresh look-up, outside the fault schedule (the store's call counter is restored afterwards)
 		savedAt, savedCalls := store.faultAt, store.calls
@@ -242,7 +242,7 @@ func VerifC14Handle() {
 			n, rerr := h.Read(buf)
 			verifAssert(n >= 0 && n <= 1, "Read count out of range")
 			if n == 1 && rerr == nil && target == "b" {
-				verifAssert(buf[0] == data[0] || buf[0] == data[1] || buf[0] == 7, "Read returned a byte that was never written")
+				verifAssert(buf[0] == data[0] || buf[0] == data[1] || buf[0] == 7 || grown && buf[0] == 0, "Read returned a byte that was never written")
 			}
 			if target == "b" {
 				if rerr == io.EOF && n == 0 && !unknown {
@@ -284,14 +284,19 @@ func VerifC14Handle() {
 				off = pos
 			}
 		case 4:
-			terr := hackpadfs.TruncateFile(h, 1)
+			// to 1 byte (shrinks) or to 3 (grows the 2-byte file; a no-op for a handle that a rejected Write left at 3)
+			tsize := int64(1 + 2*verifChoice(verifName("tsize", i), 2))
+			if tsize == 3 {
+				grown = true
+			}
+			terr := hackpadfs.TruncateFile(h, tsize)
 			if terr != nil {
 				unknown = true
 			}
 			if target == "b" && terr == nil {
 				got := fresh("after a successful Truncate")
-				verifAssert(len(got) == 1, "Truncate reported success but the store does not hold a file of that size")
-				size = 1
+				verifAssert(int64(len(got)) == tsize, "Truncate reported success but the store does not hold a file of that size")
+				size = tsize
 			}
 		case 5:
 			_, _ = hackpadfs.ReadDirFile(h, -1)
